@@ -17,7 +17,7 @@
 (*       /new, /apply, set_python_instance_state, generators drained at    *)
 (*       the end of the document.                                          *)
 (* TLC checks L => H on every graph of the bounded space.  The code has    *)
-(* five places where it deviates from the statement (section DEVIATIONS);  *)
+(* six places where it deviates from the statement (section DEVIATIONS);  *)
 (* L models each as it is, with a named switch that models the repair, so  *)
 (* that TLC can check (a) the repaired design refines H everywhere and     *)
 (* (b) every deviation of the design as it is is explained by these        *)
@@ -34,9 +34,9 @@ CONSTANTS MaxObjs,      \* objects per graph
 
 H == INSTANCE H_Reduce
 
-AllShapes == {"list", "dict", "tuple", "set", "P", "S", "SD", "GS", "GT", "GV", "NA", "NT", "R2", "R3", "RL", "RD",
+AllShapes == {"list", "dict", "tuple", "set", "P", "PA", "S", "SD", "GS", "GT", "GV", "GC", "GL", "NA", "NT", "R2", "R3", "RL", "RD",
               "CR", "ML", "MD", "MS", "OD"}
-AllFixes  == {"deepreg", "slotsnone", "falsystate", "nonestate", "emptytuple"}
+AllFixes  == {"deepreg", "slotsnone", "falsystate", "nonestate", "emptytuple", "latefill"}
 
 Range(s) == {s[i] : i \in DOMAIN s}
 Min(a, b) == IF a < b THEN a ELSE b
@@ -69,9 +69,11 @@ PNames == <<"p0", "p1", "p2", "p3", "p4", "p5", "p6", "p7">>
 LenLeaf == <<"n0", "n1", "n2", "n3", "n4", "n5", "n6", "n7", "n8">>
 \* Python's sorted() order of all attribute names of the family
 AttrOrder == <<"a", "b", "c", "d", "d_k0", "d_k1", "d_k2", "d_k3", "d_k4", "d_k5", "d_k6", "d_k7", "e", "f", "g", "h",
-               "i0", "i1", "i2", "i3", "i4", "i5", "i6", "i7", "n", "p0", "p1", "p2", "p3", "p4", "p5", "p6", "p7", "v">>
+               "i0", "i1", "i2", "i3", "i4", "i5", "i6", "i7", "items", "n", "p0", "p1", "p2", "p3", "p4", "p5", "p6", "p7", "v",
+               "x0", "x1", "x2", "x3", "x4", "x5", "x6", "x7">>
+XNames == <<"x0", "x1", "x2", "x3", "x4", "x5", "x6", "x7">>
 \* Python's sorted() order of every dict key that occurs (keys of dicts of the graph, and of the transient dicts the loader builds)
-KeyOrder == <<"a", "args", "b", "c", "d", "dictitems", "e", "f", "g", "h", "k0", "k1", "k2", "k3", "k4", "k5", "k6", "k7",
+KeyOrder == <<"a", "args", "b", "c", "d", "dictitems", "e", "f", "g", "h", "items", "k0", "k1", "k2", "k3", "k4", "k5", "k6", "k7",
               "listitems", "state">>
 LeafOrder == <<"b", "c", "e", "f", "i", "i0", "m", "n", "s", "s0", "z">>
 KeyIndex(k) == CHOOSE j \in DOMAIN Keys : Keys[j] = k
@@ -94,6 +96,8 @@ Rd(new, fn, args, state, li, di) == [new |-> new, fn |-> fn, args |-> args, stat
 
 ReduceOf(o) ==
   CASE o.s = "P"  -> Rd(TRUE, "P", <<>>, DictOrNone(o.a), <<>>, <<>>)
+    [] o.s = "PA" -> Rd(TRUE, "PA", <<>>, DictOrNone(o.a), <<>>, <<>>)            \* like P; its __setattr__ must not run
+    [] o.s = "GL" -> Rd(TRUE, "GL", <<>>, VD(<< <<"items", At(o.p[1])>> >>), <<>>, <<>>)  \* state holds a list of the graph
     [] o.s = "S"  -> Rd(TRUE, "S", <<>>, IF o.a = <<>> THEN VNone ELSE VT(<<VNone, VD(Attrs(o.a))>>), <<>>, <<>>)
     [] o.s = "SD" -> Rd(TRUE, "SD", <<>>,
                         IF o.a = <<>> THEN VNone
@@ -102,6 +106,7 @@ ReduceOf(o) ==
     [] o.s = "GS" -> Rd(TRUE, "GS", <<>>, VD(Attrs(o.a)), <<>>, <<>>)
     [] o.s = "GT" -> Rd(TRUE, "GT", <<>>, VL(Atoms(o.p)), <<>>, <<>>)
     [] o.s = "GV" -> Rd(TRUE, "GV", <<>>, At(o.p[1]), <<>>, <<>>)
+    [] o.s = "GC" -> Rd(TRUE, "GC", <<>>, VD(<< <<"items", VL(Atoms(o.p))>> >>), <<>>, <<>>)
     [] o.s = "NA" -> Rd(TRUE, "NA", Atoms(o.p), DictOrNone(o.a), <<>>, <<>>)
     [] o.s = "NT" -> Rd(TRUE, "NT", Atoms(Pad2(o.p)), VNone, <<>>, <<>>)
     [] o.s = "R2" -> Rd(FALSE, "make_r2", Atoms(o.p), VNone, <<>>, <<>>)
@@ -115,8 +120,8 @@ ReduceOf(o) ==
     [] o.s = "OD" -> Rd(FALSE, "OD", <<>>, VNone, <<>>, Keyed(o.p))                \* pickle's view; yaml has its own representer
     [] OTHER -> Rd(FALSE, "?", <<>>, VNone, <<>>, <<>>)
 
-HasSetstate(lab) == lab \in {"GS", "GT", "GV"}
-HasDict(lab)     == lab \in {"P", "SD", "GS", "GT", "GV", "NA", "R2", "R3", "RL", "RD", "CR", "ML", "MD", "MS", "OD"}
+HasSetstate(lab) == lab \in {"GS", "GT", "GV", "GC", "GL"}
+HasDict(lab)     == lab \in {"P", "PA", "SD", "GS", "GT", "GV", "GC", "GL", "NA", "R2", "R3", "RL", "RD", "CR", "ML", "MD", "MS", "OD"}
 
 (***************************************************************************)
 (* Class semantics, shared by H and L (both protocols call the same        *)
@@ -148,7 +153,7 @@ SetDig(kinds) == "m" \o JoinKinds(LeafOrder, kinds)
 
 \* cls.__new__(cls, args...) when new, else fn(args...); args : Seq of views
 ClsNew(fn, new, args) ==
-  CASE fn \in {"P", "S", "SD", "GS", "GT", "GV", "ML", "MD"} /\ new -> Empty(fn)
+  CASE fn \in {"P", "PA", "S", "SD", "GS", "GT", "GV", "GC", "GL", "ML", "MD"} /\ new -> Empty(fn)
     [] fn = "NA" /\ new -> [Empty("NA") EXCEPT !.pos = [j \in DOMAIN args |-> Kid("t", "", RVof(args[j]))]]
     [] fn = "NT" /\ new -> IF Len(args) # 2 THEN ERR("TypeError")
                            ELSE [Empty("NT") EXCEPT !.pos = [j \in DOMAIN args |-> Kid("t", "", RVof(args[j]))]]
@@ -163,12 +168,22 @@ ClsNew(fn, new, args) ==
                             ELSE SetItems(Empty("OD"), [j \in DOMAIN args[1].e |-> <<args[1].e[j].e[1].l, args[1].e[j].e[2]>>])
     [] OTHER -> ERR("TypeError")
 
-\* instance.__setstate__(state) of the three classes that define it
+\* instance.__setstate__(state) of the classes that define it
 ClsSetState(rec, sv) ==
   CASE rec.lab = "GS" -> IF sv.t # "dict" THEN ERR("TypeError") ELSE SetAttrs(rec, sv.e)
     [] rec.lab = "GT" -> IF sv.t \notin {"list", "tuple"} THEN ERR("TypeError")
                          ELSE SetAttr(SetAttrs(rec, [j \in DOMAIN sv.e |-> <<ANames[j], sv.e[j]>>]), "n", Lf(LenLeaf[Len(sv.e) + 1]))
     [] rec.lab = "GV" -> SetAttr(rec, "v", RVof(sv))
+    \* GC copies what it finds inside state["items"] at the moment of the call
+    [] rec.lab = "GC" -> IF sv.t # "dict" \/ ~(\E j \in DOMAIN sv.e : sv.e[j][1] = "items") THEN ERR("KeyError")
+                         ELSE LET it == sv.e[CHOOSE j \in DOMAIN sv.e : sv.e[j][1] = "items"][2] IN
+                              IF it.t \notin {"list", "tuple"} THEN ERR("TypeError")
+                              ELSE SetAttrs(rec, [j \in DOMAIN it.e |-> <<ANames[j], it.e[j]>>])
+    \* GL keeps state["items"] (a list shared with the rest of the graph) and copies what is in it at this moment
+    [] rec.lab = "GL" -> IF sv.t # "dict" \/ ~(\E j \in DOMAIN sv.e : sv.e[j][1] = "items") THEN ERR("KeyError")
+                         ELSE LET it == sv.e[CHOOSE j \in DOMAIN sv.e : sv.e[j][1] = "items"][2] IN
+                              IF it.t \notin {"list", "tuple"} THEN ERR("TypeError")
+                              ELSE SetAttrs(SetAttr(rec, "items", RVof(it)), [j \in DOMAIN it.e |-> <<XNames[j], it.e[j]>>])
     [] OTHER -> ERR("AttributeError")
 
 \* instance.extend(items)
@@ -189,7 +204,7 @@ SortBy(kids, order) ==
   LET present == SelectSeq(order, LAMBDA nm : \E j \in DOMAIN kids : kids[j].k = nm)
   IN  IF Len(present) # Len(kids) THEN Assert(FALSE, <<"name outside the order table", kids>>)
       ELSE [x \in DOMAIN present |-> kids[CHOOSE j \in DOMAIN kids : kids[j].k = present[x]]]
-PlainRec(rec) == rec.lab = "P" \/ (rec.lab = "NA" /\ rec.pos = <<>>)
+PlainRec(rec) == rec.lab \in {"P", "PA"} \/ (rec.lab = "NA" /\ rec.pos = <<>>)
 Canon(rec) ==
   LET soften(ks, b) == [j \in DOMAIN ks |-> [ks[j] EXCEPT !.soft = b]]
   IN [lab |-> rec.lab, dig |-> rec.dig,
@@ -213,7 +228,10 @@ PDefaultState(rec, sv) ==
       r1 == IF dpart.t = "dict" THEN SetAttrs(rec, dpart.e) ELSE rec
   IN  IF spart.t = "dict" THEN SetAttrs(r1, spart.e) ELSE r1
 
-PObj(o) ==
+\* a list that is complete when pickle reaches BUILD of the object holding it (it does not lead back to that object,
+\* see InDomain), seen the way __setstate__ sees it
+WholeList(g, v) == [t |-> "list", r |-> v.r, l |-> "", e |-> Atoms(g[v.r].p)]
+PObj(g, o) ==
   CASE o.s = "list"  -> [Empty("list") EXCEPT !.pos = [j \in DOMAIN o.p |-> Kid("i", "", o.p[j])]]
     [] o.s = "tuple" -> [Empty("tuple") EXCEPT !.pos = [j \in DOMAIN o.p |-> Kid("t", "", o.p[j])]]
     [] o.s = "dict"  -> SetItems(Empty("dict"), Keyed(o.p))
@@ -221,12 +239,13 @@ PObj(o) ==
     [] OTHER ->
        LET rd == ReduceOf(o)
            r0 == ClsNew(rd.fn, rd.new, rd.args)
+           state == IF o.s = "GL" THEN VD(<< <<"items", WholeList(g, o.p[1])>> >>) ELSE rd.state
            r1 == IF IsNoneV(rd.state) THEN r0
-                 ELSE IF HasSetstate(r0.lab) THEN ClsSetState(r0, rd.state) ELSE PDefaultState(r0, rd.state)
+                 ELSE IF HasSetstate(r0.lab) THEN ClsSetState(r0, state) ELSE PDefaultState(r0, state)
            r2 == IF rd.li = <<>> THEN r1 ELSE ClsExtend(r1, rd.li)
        IN  IF rd.di = <<>> THEN r2 ELSE ClsSetItems(r2, rd.di)
 
-PickleRebuild(g) == [i \in DOMAIN g |-> Canon(PObj(g[i]))]
+PickleRebuild(g) == [i \in DOMAIN g |-> Canon(PObj(g, g[i]))]
 RootKid == [c |-> "root", k |-> "", r |-> 1, d |-> "", dk |-> "", soft |-> TRUE]
 
 (***************************************************************************)
@@ -327,10 +346,11 @@ TagsOf(ns) == {TagKind(ns[n].tag) : n \in DOMAIN ns}
 
 (***************************************************************************)
 (* L, load side : constructor.py.                                          *)
-(*   st : [ns, done, con, rec, gens, deep, heap, err, fx, full]            *)
+(*   st : [ns, done, con, rec, gens, pend, deep, heap, err, fx, full]      *)
 (*        done/con = constructed_objects, rec = recursive_objects,         *)
 (*        gens = state_generators (<<node, object>>: the second phase of a *)
-(*        two-phase constructor), deep = deep_construct, heap = the Python *)
+(*        two-phase constructor), pend = nodes whose second phase has not  *)
+(*        started yet, deep = deep_construct, heap = the Python            *)
 (*        objects built so far (one per constructed collection node),      *)
 (*        full = TRUE for FullConstructor (python/module, /object, /new,   *)
 (*        /apply are not registered there)                                 *)
@@ -397,7 +417,13 @@ COPairs(st, pairs, d, acc) ==
 \* BaseConstructor.construct_object (constructor.py:67-115)
 CO(st, n, d) ==
   IF st.err # "" THEN [st |-> st, v |-> NoRV]
-  ELSE IF n \in st.done THEN [st |-> st, v |-> st.con[n]]
+  ELSE IF n \in st.done THEN
+       \* An object met again while its second phase is still queued is handed out unfilled, also to code that builds
+       \* with deep=True and reads it at once (deviation "latefill"; the repair runs the queued phase first).
+       IF "latefill" \in st.fx /\ (d \/ st.deep) /\ n \in st.pend
+       THEN LET s1 == Fill([st EXCEPT !.pend = @ \ {n}, !.deep = TRUE], n, st.con[n])
+            IN  [st |-> IF s1.err # "" THEN s1 ELSE [s1 EXCEPT !.deep = st.deep], v |-> st.con[n]]
+       ELSE [st |-> st, v |-> st.con[n]]
   ELSE LET old == st.deep
            s1  == IF d THEN [st EXCEPT !.deep = TRUE] ELSE st
            node == st.ns[n]
@@ -420,7 +446,7 @@ CO(st, n, d) ==
                       s4 == IF s3.deep
                             THEN (IF "deepreg" \in s3.fx THEN Fill([s3 EXCEPT !.done = @ \cup {n}, !.con[n] = v], n, v)
                                   ELSE Fill(s3, n, v))
-                            ELSE [s3 EXCEPT !.gens = Append(@, <<n, v>>)]
+                            ELSE [s3 EXCEPT !.gens = Append(@, <<n, v>>), !.pend = @ \cup {n}]
                   IN [st |-> [s4 EXCEPT !.done = @ \cup {n}, !.con[n] = v, !.rec = @ \ {n}, !.deep = IF d THEN old ELSE @], v |-> v]
        ELSE LET r == IF node.tag = "tuple"
                      THEN LET c == COSeq(s2, node.e, FALSE, <<>>)
@@ -450,7 +476,7 @@ Fill(st, n, v) ==
      IN  IF c.st.err # "" THEN c.st
          ELSE \* the state is a fresh dict object (a class may keep it: GV does)
               LET s1 == Alloc(c.st, SetItems(Empty("dict"), [j \in DOMAIN c.vs |-> <<c.vs[j][1], At(c.vs[j][2])>>]))
-              IN  SetInstState(s1, v, Mat(s1.heap, Rf(Len(s1.heap)), 1))
+              IN  SetInstState(s1, v, Mat(s1.heap, Rf(Len(s1.heap)), 2))
 
 \* construct_python_object_apply / _new (constructor.py:623-659): everything under the node is built with deep=True
 \* before the instance exists
@@ -489,11 +515,13 @@ ApplyNew(st, n) ==
 
 \* construct_document: the queued generators are run, batch after batch, after the root was built
 RECURSIVE RunGens(_, _), Drain(_)
-RunGens(st, gs) == IF gs = <<>> \/ st.err # "" THEN st ELSE RunGens(Fill(st, gs[1][1], gs[1][2]), Tail(gs))
+RunGens(st, gs) == IF gs = <<>> \/ st.err # "" THEN st
+                   ELSE IF gs[1][1] \notin st.pend THEN RunGens(st, Tail(gs))        \* already run on demand
+                   ELSE RunGens(Fill([st EXCEPT !.pend = @ \ {gs[1][1]}], gs[1][1], gs[1][2]), Tail(gs))
 Drain(st) == IF st.err # "" \/ st.gens = <<>> THEN st ELSE Drain(RunGens([st EXCEPT !.gens = <<>>], st.gens))
 
 Construct(ns, root, fx, full) ==
-  LET st0 == [ns |-> ns, done |-> {}, con |-> [n \in DOMAIN ns |-> NoRV], rec |-> {}, gens |-> <<>>, deep |-> FALSE,
+  LET st0 == [ns |-> ns, done |-> {}, con |-> [n \in DOMAIN ns |-> NoRV], rec |-> {}, gens |-> <<>>, pend |-> {}, deep |-> FALSE,
               heap |-> <<>>, err |-> "", fx |-> fx, full |-> full]
       r  == CO(st0, root, FALSE)
       st == Drain(r.st)
@@ -520,8 +548,17 @@ RECURSIVE ArgReach(_, _, _)
 ArgReach(g, frontier, seen) ==
   IF frontier = {} THEN seen
   ELSE LET nxt == (UNION {ArgRefs(g[i]) : i \in frontier}) \ seen IN ArgReach(g, nxt, seen \cup nxt)
+KidRefs(o) == ({o.p[j].r : j \in DOMAIN o.p} \cup {o.a[j].r : j \in DOMAIN o.a}) \ {0}
+RECURSIVE GReach(_, _, _)
+GReach(g, frontier, seen) ==
+  IF frontier = {} THEN seen
+  ELSE LET nxt == (UNION {KidRefs(g[i]) : i \in frontier}) \ seen IN GReach(g, nxt, seen \cup nxt)
 InDomain(g) ==
   /\ \A i \in DOMAIN g : i \notin ArgReach(g, {i}, {})
+  \* GL copies out of a list of the graph when its state is set: the list must not lead back to the object (pickle
+  \* itself would then hand over a half-filled list, depending on where the traversal started)
+  /\ \A i \in DOMAIN g : g[i].s = "GL" => /\ g[i].p[1].r # 0 /\ g[g[i].p[1].r].s = "list"
+                                           /\ i \notin GReach(g, {g[i].p[1].r}, {})
   /\ \A i \in DOMAIN g : g[i].s = "GV" /\ g[i].p[1].r # 0 => g[g[i].p[1].r].s \notin {"dict", "MD", "OD"}
 
 (***************************************************************************)
@@ -532,8 +569,8 @@ UnsafeOk(g, fx) == LET o == Load(g, fx, FALSE) IN H!UnsafeVerdict(Ref(g), RootKi
 FullOk(g, fx)   == LET o == Load(g, fx, TRUE)  IN IF o.dumped THEN H!FullVerdict(o.tags, o.out = "ok") ELSE H!OK   \* no document
 
 \* DEVIATIONS.  The smallest sets of repairs under which the design satisfies H on g; <<>> when H holds as it is,
-\* <<"unexplained">> when no combination of the five named repairs helps.
-FixOrder == <<"deepreg", "slotsnone", "falsystate", "nonestate", "emptytuple">>
+\* <<"unexplained">> when no combination of the named repairs helps.
+FixOrder == <<"deepreg", "slotsnone", "falsystate", "nonestate", "emptytuple", "latefill">>
 AsSeq(F) == SelectSeq(FixOrder, LAMBDA x : x \in F)
 \* a repair can only matter on graphs that reach the code it changes (keeps the search small)
 Relevant(g) ==
@@ -542,6 +579,7 @@ Relevant(g) ==
   \cup (IF \E i \in DOMAIN g : g[i].s \in {"GT", "GV"} THEN {"falsystate"} ELSE {})
   \cup (IF \E i \in DOMAIN g : g[i].s = "GV" /\ g[i].p[1] = Lf("z") THEN {"nonestate"} ELSE {})
   \cup (IF \E i \in DOMAIN g : g[i].s = "NA" /\ g[i].p = <<>> THEN {"emptytuple"} ELSE {})
+  \cup (IF \E i \in DOMAIN g : g[i].s = "GL" THEN {"latefill"} ELSE {})
 Need(g, base) ==
   IF UnsafeOk(g, base).ok THEN <<>>
   ELSE LET cands == {F \in SUBSET (Relevant(g) \ base) : F # {} /\ UnsafeOk(g, base \cup F).ok}
@@ -563,13 +601,13 @@ KidSeqs(n, h, leafOnly) ==
                  c \in {Lf(l) : l \in Leaves} \cup (IF leafOnly THEN {} ELSE {Rf(j) : j \in 1 .. Min(x.hi + 1, MaxObjs)})}
               : x \in KidSeqs(n - 1, h, leafOnly)}
 
-AOnly  == {"P", "S", "SD", "GS"}
+AOnly  == {"P", "PA", "S", "SD", "GS"}
 TwoSec == {"NA", "R3", "RL", "ML", "MD"}
 \* allowed (np, na) for a shape with at most m kids
 Splits(s, m) ==
   CASE s \in AOnly  -> {<<0, na>> : na \in 0 .. m}
     [] s \in TwoSec -> {<<np, na>> \in (0 .. 1) \X (0 .. 1) : np + na <= m}
-    [] s = "GV"     -> {<<1, 0>>}
+    [] s \in {"GV", "GL"} -> {<<1, 0>>}
     [] s = "tuple"  -> {<<np, 0>> : np \in 1 .. m}
     [] s = "MS"     -> {<<np, na>> \in (0 .. 1) \X (0 .. 1) : np + na <= m}
     [] OTHER        -> {<<np, 0>> : np \in 0 .. m}
@@ -592,7 +630,7 @@ Spec == Init /\ [][Next]_vars
 (***************************************************************************)
 (* What TLC checks on every complete graph of the domain.                  *)
 (***************************************************************************)
-\* (a) with the five deviations repaired, L refines H: unsafe load equals pickle's rebuild (or rejects a hard cycle
+\* (a) with the named deviations repaired, L refines H: unsafe load equals pickle's rebuild (or rejects a hard cycle
 \*     with ConstructorError), and the full loader accepts exactly the tuple / complex / name documents
 RepairedRefinesH == fin => UnsafeOk(g, AllFixes).ok /\ FullOk(g, AllFixes).ok
 \* (b) the design as the code has it deviates from H only through the named deviations
